@@ -296,10 +296,14 @@ func (c *context) SendMsg(m *protocol.Message) error {
 	// It is responsible for providing the blocking semantic and
 	// ultimately back-pressure.  Note that we will "continue" if
 	// sending is canceled by a subsequent send.
-	for c.sendMsg == m && !expired && !c.closed && !(c.failNoPeers && len(s.pipes) == 0) {
+	// If the request is cancelled while it is still waiting for a pipe
+	// (a concurrent Recv on this context hit its deadline) it has left
+	// the send queue and its timer is gone: stop waiting then, too.
+	for c.sendMsg == m && c.queued && !expired && !c.closed && !(c.failNoPeers && len(s.pipes) == 0) {
 		c.cond.Wait()
 	}
 	if c.sendMsg == m {
+		canceled := !c.queued && !expired
 		c.cancelSend()
 		c.sendMsg = nil
 		c.reqID = 0
@@ -308,6 +312,9 @@ func (c *context) SendMsg(m *protocol.Message) error {
 		}
 		if c.failNoPeers && len(s.pipes) == 0 {
 			return protocol.ErrNoPeers
+		}
+		if canceled {
+			return protocol.ErrCanceled
 		}
 		return protocol.ErrSendTimeout
 	}
